@@ -56,22 +56,63 @@ def enc_word(word):
     return t
 
 
-def run_model(model, case):
-    """the model's answer: [{'outcome','log','dump','views','stack':(index, len)}] per stack operation"""
+def run_model_flat(model, case, word):
+    """the model's answer for a word of single stack operations"""
     toks = kmodel.encode_mm(case)
     h = []
     for op in case['history']:
         h += kmodel.encode_op(op)
-    toks += [len(h)] + h + enc_word(case['word'])
+    toks += [len(h)] + h + enc_word(word)
     ans = model.ask('commands', toks)
-    n = len(case['word'])
+    n = len(word)
     body, trailer = ans[:len(ans) - 2 * n], ans[len(ans) - 2 * n:]
     fake = dict(case)
-    fake['history'] = case['word']
+    fake['history'] = word
     steps = kmodel.parse_steps(fake, body)
     for j, s in enumerate(steps):
         s['stack'] = (trailer[2 * j], trailer[2 * j + 1])
     return steps
+
+
+def run_model(model, case):
+    """the model's answer: [{'outcome','log','dump','views','stack':(index, len)}] per stack operation.
+    ['exec*', [c1, c2, ...]] = CommandStack.execute(c1, c2, ...) is, for the model, the sequence of the single
+    executes up to and including the first one that is refused or raises (the earlier ones stay executed and
+    recorded, the exception is the outcome of the call); where that happens is read from the model itself."""
+    keep = {i: len(sop[1]) for i, sop in enumerate(case['word']) if sop[0] == 'exec*'}
+    while True:
+        flat, owner = [], []
+        for i, sop in enumerate(case['word']):
+            if sop[0] == 'exec*':
+                for c in sop[1][:keep[i]]:
+                    flat.append(['exec', c])
+                    owner.append(i)
+            else:
+                flat.append(sop)
+                owner.append(i)
+        steps = run_model_flat(model, case, flat) if flat else []
+        changed = False
+        for i in sorted(keep):
+            js = [j for j, o in enumerate(owner) if o == i]
+            for n_, j in enumerate(js):
+                if steps[j]['outcome'][0] != 0 and n_ + 1 < len(js):
+                    keep[i] = n_ + 1
+                    changed = True
+                    break
+            if changed:
+                break           # later calls meet another state: look again
+        if not changed:
+            break
+    out = []
+    for i, sop in enumerate(case['word']):
+        js = [j for j, o in enumerate(owner) if o == i]
+        if js:
+            out.append(steps[js[-1]])
+        else:                   # execute() without a command: nothing happens
+            prev = out[-1] if out else None
+            out.append({'outcome': (0, None), 'log': [], 'dump': prev['dump'] if prev else None,
+                        'views': prev['views'] if prev else None, 'stack': prev['stack'] if prev else (-1, 0)})
+    return out
 
 
 # ---------------------------------------------------------------- the side condition, from the PRE-state
@@ -474,6 +515,35 @@ class Verdict:
         self.stats = collections.Counter()
 
 
+def members_of_call(m, case, flat, cmds):
+    """what ONE call stack.execute(c1, c2, ...) is made of, member by member, on a scratch replay of the
+    implementation: every command is checked right before it runs, the call ends at the first command that is
+    refused or raises (the earlier ones stay executed and recorded).  -> 'cycle' or
+    [{'cmd', 'pre', 'post', 'code', 'scope', 'stale', 'prone'}] for the members the call reaches"""
+    sc = c06impl.CmdWorld(dict(case, word=[]), observers=False)
+    for sop in flat:
+        sc.do(sop)
+    out, singles = [], []
+    for c in cmds:
+        try:
+            mpre = sc.dump()
+        except RecursionError:
+            return 'cycle'
+        scope, stale, prone = analyse(m, dict(case, word=flat + singles), len(flat) + len(singles), mpre, c)
+        if scope == 'cycle':
+            return 'cycle'
+        code = sc.do(['exec', c])
+        try:
+            mpost = sc.dump()
+        except RecursionError:
+            return 'cycle'
+        singles.append(['exec', c])
+        out.append({'cmd': c, 'pre': mpre, 'post': mpost, 'code': code, 'scope': scope, 'stale': stale, 'prone': prone})
+        if code != 0:
+            break
+    return out
+
+
 def evaluate(case, record=True):
     """run the word on the implementation; check every stack operation against the property"""
     m = koracle.MM(case)
@@ -482,9 +552,17 @@ def evaluate(case, record=True):
     done, undone = [], []
     pre = w.dump()
     run_start = None        # (dump before the current run of undos, number of successful undos, redos so far)
+    flat = []               # the word so far as single stack operations (an exec* call = the members it reached)
     for i, sop in enumerate(case['word']):
         kind = sop[0]
-        scope, stale, prone = analyse(m, case, i, pre, sop[1]) if kind == 'exec' else (None, False, set())
+        fcase, fi = dict(case, word=list(flat)), len(flat)
+        scope, stale, prone, members = None, False, set(), None
+        if kind == 'exec':
+            scope, stale, prone = analyse(m, fcase, fi, pre, sop[1])
+        elif kind == 'exec*':
+            members = members_of_call(m, case, flat, sop[1])
+            if members == 'cycle':
+                scope = 'cycle'
         if scope == 'cycle':
             v.stopped = ('containment-cycle', i)
             break
@@ -532,6 +610,36 @@ def evaluate(case, record=True):
                 elif diffs:
                     v.stopped = ('out-of-scope-command-raised', i)
                     break
+        elif kind == 'exec*':
+            run_start = None
+            stop = None
+            for mb in members:
+                cmd = mb['cmd']
+                if mb['code'] == 0:
+                    done.append({'cmd': cmd, 'pre': mb['pre'], 'post': mb['post'], 'scope': mb['scope'], 'index': i,
+                                 'stale': mb['stale'], 'prone': mb['prone']})
+                    undone = []
+                    v.stats['exec-ok:' + cmd[0]] += 1
+                    v.stats['exec-ok-in-multi-command-call'] += 1
+                    if mb['scope']:
+                        v.stats['exec-ok-out-of-scope'] += 1
+                else:
+                    v.stats['exec-raised'] += 1
+                    v.stats['multi-command-call-ended-by-refused-command'] += 1
+                    diffs, tolerated = state_diff(m, mb['pre'], mb['post'], delete_exception=has_delete(cmd))
+                    if tolerated and not diffs:
+                        stop = 'order-changed-within-delete-exception'
+                    elif diffs and not mb['scope']:
+                        fprone = mb['prone']
+                        fail = ('can_execute-raised', cmd, mb['pre'], diffs,
+                                ('partial-effect',) + (STALE if mb['stale'] else ()),
+                                f'{cmd} raised (code {mb["code"]}) after changing the model: {diffs[0][2]}')
+                    elif diffs:
+                        stop = 'out-of-scope-command-raised'
+            v.stats['multi-command-calls'] += 1
+            if stop:
+                v.stopped = (stop, i)
+                break
         elif kind == 'undo':
             if not done:
                 diffs, _ = state_diff(m, pre, post)
@@ -602,12 +710,13 @@ def evaluate(case, record=True):
                             run_start = None
         if fail:
             clause, cmd, fpre, diffs, extra, what = fail
-            if cmd and has_delete(cmd) and held_twice_earlier(m, case, i, fpre, cmd):
+            if cmd and has_delete(cmd) and held_twice_earlier(m, fcase, fi, fpre, cmd):
                 extra = tuple(extra) + ('held-twice-earlier',)
             v.failure = {'index': i, 'clause': clause, 'what': f'C06/{clause}: {what}',
                          'signature': signature(m, clause, cmd, fpre, diffs, extra, fprone)}
             break
         pre = post
+        flat += [['exec', mb['cmd']] for mb in members] if kind == 'exec*' else [sop]
     return v
 
 
@@ -648,11 +757,19 @@ def shrink(case, sig):
         if changed:
             continue
         for i, sop in enumerate(best['word']):
-            if sop[0] != 'exec':
+            if sop[0] == 'exec*':
+                cands = [['exec*', sop[1][:j] + sop[1][j + 1:]] for j in range(len(sop[1])) if len(sop[1]) > 2]
+                if len(sop[1]) == 2:
+                    cands += [['exec', sop[1][0]], ['exec', sop[1][1]]]
+                for j, c in enumerate(sop[1]):
+                    cands += [['exec*', sop[1][:j] + [sc] + sop[1][j + 1:]] for sc in simpler_cmds(c)]
+            elif sop[0] == 'exec':
+                cands = [['exec', sc] for sc in simpler_cmds(sop[1])]
+            else:
                 continue
-            for sc in simpler_cmds(sop[1]):
+            for cnd in cands:
                 cand = copy.deepcopy(best)
-                cand['word'][i] = ['exec', sc]
+                cand['word'][i] = cnd
                 if still(cand):
                     best, changed = cand, True
                     break
@@ -863,6 +980,42 @@ def gen_cmd(m, case, d, rng):
     return gen_prim(m, case, d, rng)
 
 
+def gen_call(m, case, d, rng):
+    """['exec*', [c1, c2(, c3)]]: ONE call stack.execute(c1, c2, ...) whose later commands often depend on or
+    conflict with the earlier ones (the same element added twice, a Remove of what the first removes, a Move
+    after an Add, a Set after a Set); the side condition is decided member by member on a scratch replay"""
+    cmds = []
+    sc = c06impl.CmdWorld(dict(case, word=[]), observers=False)
+    for sop in case['word']:
+        sc.do(sop)
+    for j in range(rng.choice([2, 2, 2, 3])):
+        try:
+            dj = sc.dump()
+        except RecursionError:
+            break
+        tmp = dict(case, word=case['word'] + [['exec', c] for c in cmds])
+        for _ in range(20):
+            r = rng.random()
+            if cmds and r < 0.25:
+                c = copy.deepcopy(rng.choice(cmds))                     # the very same command again
+            elif cmds and r < 0.85 and any(flatten(x) for x in cmds):
+                c = gen_related(m, case, dj, rng, rng.choice([p for x in cmds for p in flatten(x)]))
+            elif not cmds and r < 0.7:
+                c = gen_idiom_first(m, case, dj, rng)
+            else:
+                c = gen_cmd(m, case, dj, rng)
+            scp = scope_of(m, tmp, len(tmp['word']), dj, c)
+            if scp == 'cycle' or (scp == 'steals' and rng.random() < 0.9):
+                continue
+            break
+        else:
+            c = ['Delete', 0]
+        cmds.append(c)
+        if sc.do(['exec', c]) != 0:
+            break                                                       # the call ends here
+    return ['exec*', cmds] if len(cmds) > 1 else ['exec', cmds[0]]
+
+
 def gen_case(rng, thorough):
     pool = list(kgen.TEMPLATES)
     n = rng.randrange(2, 6)
@@ -897,7 +1050,9 @@ def gen_case(rng, thorough):
                 del case['word'][-len(block):]
                 break
             continue
-        if r < 0.56 or (ndone == 0 and nundone == 0 and r < 0.9):
+        if r < 0.045:
+            sop = gen_call(m, case, d, rng)
+        elif r < 0.56 or (ndone == 0 and nundone == 0 and r < 0.9):
             for _ in range(30):
                 cmd = gen_cmd(m, case, d, rng)
                 sc = scope_of(m, case, len(case['word']), d, cmd)
@@ -920,7 +1075,9 @@ def gen_case(rng, thorough):
         except RecursionError:      # a containment cycle slipped through: the word ends before it
             case['word'].pop()
             break
-        if code == 0:
+        if sop[0] == 'exec*':
+            ndone, nundone = w.stack.stack_index + 1, len(w.stack.stack) - w.stack.stack_index - 1
+        elif code == 0:
             if sop[0] == 'exec':
                 ndone, nundone = ndone + 1, 0
             elif sop[0] == 'undo':
@@ -984,6 +1141,12 @@ CORPUS = [
      'word': [['exec', ['Compound', [['Set', 0, 0, None], ['Set', 1, 0, ['o', 3]]]]], ['undo'], ['redo'], ['undo']]},
     {'templates': ['ai'], 'history': [['set', 0, 0, ['i', 1], 'attr']],
      'word': [['exec', ['Compound', [['Set', 0, 0, ['i', 7]], ['Set', 0, 0, ['i', -1]]]]], ['undo'], ['redo'], ['undo']]},
+    # one call stack.execute(c1, c2): every command is checked right before it runs
+    {'templates': ['rn'], 'history': [['append', 0, 0, ['o', 3]], ['append', 0, 0, ['o', 4]]],
+     'word': [['exec*', [['Add', 0, 0, ['o', 5], None], ['Add', 0, 0, ['o', 5], 0]]], ['undo'], ['undo'], ['redo']]},
+    {'templates': ['ainl'], 'history': [['append', 0, 0, ['i', 1]]],
+     'word': [['exec*', [['Add', 0, 0, ['i', 7], 0], ['Move', 0, 0, ['i', 7], None, 5], ['Remove', 0, 0, None, 0]]],
+              ['undo'], ['undo'], ['undo'], ['redo'], ['redo']]},
     # Delete of an object and its child that one collection without opposite holds both (fix fd7bdda)
     {'templates': ['ctree', 'rself', 'rbag'],
      'history': [['assign', 4, 3, [['o', 1], ['o', 2], ['o', 1]], 'list'], ['insert', 4, 3, -4, ['o', 0]],
@@ -1043,11 +1206,13 @@ def run(ctx, out):
             tmpl[t] += 1
         for s in v.steps:
             outcomes[s['outcome'][0]] += 1
-            if s['op'][0] == 'exec':
-                for p in flatten(s['op'][1]):
+            for c in ([s['op'][1]] if s['op'][0] == 'exec' else s['op'][1] if s['op'][0] == 'exec*' else []):
+                for p in flatten(c):
                     kinds[p[0]] += 1
-                if s['op'][1][0] == 'Compound':
+                if c[0] == 'Compound':
                     kinds['Compound'] += 1
+            if s['op'][0] == 'exec*':
+                kinds['multi-command call'] += 1
         if v.stopped:
             stops[v.stopped[0]] += 1
         if len(case['word']) >= 3:
@@ -1064,7 +1229,8 @@ def run(ctx, out):
         if cmp_:
             j, d = cmp_
             m = koracle.MM(case)
-            if any(has_delete(s['op'][1]) for s in v.steps[:j + 1] if s['op'][0] == 'exec') \
+            if any(has_delete(c) for s in v.steps[:j + 1] if s['op'][0] in ('exec', 'exec*')
+                   for c in ([s['op'][1]] if s['op'][0] == 'exec' else s['op'][1])) \
                     and v.steps[j]['outcome'][0] == ms[j]['outcome'][0] \
                     and order_only(case, v.steps[j]['dump'], ms[j]['dump']):
                 # Delete.undo walks Python sets (eAllReferences, _inverse_rels): the order in which links come
@@ -1127,6 +1293,10 @@ def run(ctx, out):
         'nested Compounds are flattened neither by the harness nor by the model (the model has nested compounds)',
         'Delete.undo iterates Python sets (eAllReferences(), _inverse_rels): when model and implementation then differ '
         'only in the order of many-valued references the word is cut there (counted in the coverage)',
+        "['exec*', [c1, c2, ...]] is ONE call CommandStack.execute(c1, c2, ...): for the oracle and for the model it "
+        'is the sequence of the single executes up to and including the first command that is refused or raises '
+        '(oracle: members replayed one by one on a scratch world; model: the expansion is cut where the model itself '
+        'reports the first refusal)',
         'every 4th generated case and the hand-written words run a second time on the static-falsy rendering '
         '(harness/kstatic.py: static classes whose instances define __bool__ returning False), same model, same oracle',
         'Compounds: about half are built from a first member and members acting on what it changes (same slot, the '
